@@ -27,8 +27,12 @@ class C24(Property):
             "and, for a quarter of the cases, a 3-iteration SLSQP run with group_by_pre_opt_post are "
             "compared. Non-trivial: some output variable is reported irrelevant for some seed pair; "
             "distinct by (seed, configuration).")
-    assumptions = ["results compared at 1e-9 relative (1e-6 with iterative solvers)",
-                   "relevance is switched through the module flag read by Relevance.__init__"]
+    assumptions = ["results compared at 1e-9 relative (1e-6 with iterative solvers), widened to "
+                   "1e-14 x cond(dR/du) for ill-conditioned generated systems",
+                   "relevance is switched through the module flag read by Relevance.__init__",
+                   "when ScipyKrylov reports non-convergence only with relevance enabled the values are "
+                   "taken again with un-restarted GMRES and the error flag off and compared; both runs "
+                   "failing to converge is a false premise (case skipped)"]
     trusted_extra = ["networkx graph traversal inside Relevance (results only compared)"]
     level_text = ("For feed-forward linear solves (forward substitution over the execution order) it is "
                   "proved in Lean, for every weight matrix, seed and keep-set, that variables not "
